@@ -257,7 +257,7 @@ pub fn phase_sweep_script(rng: &mut Rng, i: u64, prop: &str) -> Script {
         // shifted by r literal bytes (r code bytes) in front instead of a run
         s.set("level", rng.pick(&[4i64, 6, 6, 9]));
         s.set("driver", 0);
-        let body = gen::fat_step_plain(rng, 135);
+        let body = gen::fat_step_plain(rng, 270);
         s.set("phase_from", 0);
         s.set("phase_noise", 1);
         s.set_blob("phase_prefix", rng.bytes(128));
@@ -267,8 +267,8 @@ pub fn phase_sweep_script(rng: &mut Rng, i: u64, prop: &str) -> Script {
         s.set_blob("plain", body);
         return s;
     }
-    let n = rng.range(62_000, 70_000);
-    let grant = rng.pick(&[64i64, 64, 1, 4096, 200_000]);
+    let n = rng.range(62_000, 70_000) + if rng.chance(1, 3) { 64_000 } else { 0 };
+    let grant = rng.pick(&[64i64, 64, 1, 4096, 400_000]);
     s.ops = vec![vec![(n + 5000) as i64, grant, 0]];
     s.set("tail_out", rng.pick(&[64i64, 4096, 100_000]));
     s.set_blob("plain", rng.bytes(n));
@@ -487,7 +487,13 @@ pub fn gen_c12(rng: &mut Rng, _i: u64, tier: Tier) -> Script {
     s
 }
 
-pub fn gen_c10(rng: &mut Rng, _i: u64, tier: Tier) -> Script {
+pub fn gen_c10(rng: &mut Rng, i: u64, tier: Tier) -> Script {
+    if i < 4 {
+        // the lazy parser's fattest steps in every phase of the code-buffer-full instant (see phase_sweep_script)
+        let mut s = phase_sweep_script(rng, 8 * i + 7, "C10");
+        s.set("clauses", PC_C10);
+        return s;
+    }
     let mut s = Script::new("C10", "pipe");
     base_cfg(rng, &mut s, true);
     s.set("clauses", PC_C10);
@@ -598,8 +604,12 @@ pub fn gen_c11(rng: &mut Rng, i: u64, _tier: Tier) -> Script {
         s.set("level", rng.pick(&[1i64, 1, 1, 6, 9]));
         s.set("strategy", rng.pick(&[0i64, 0, 4]));
         s.set("clauses", PC_C11);
+        s.set("phase_noise", 0);
+        s.set("driver", rng.pick(&[0i64, 0, 2]));
         let period = (1usize << w) + rng.range(1, 300);
-        let total = rng.range(62_000, 70_000);
+        let total = rng.range(62_000, 70_000) + if rng.chance(1, 2) { 62_000 } else { 0 };
+        // a grant that takes everything (the call goes on into the next block) or a small one
+        s.ops = vec![vec![(total + 5000) as i64, if rng.chance(2, 3) { (2 * total + 1000) as i64 } else { 64 }, 0]];
         s.set_blob("plain", periodic_plain(rng, period, total));
         return s;
     }
